@@ -11,9 +11,9 @@
    In every state TLC checks the design (RequiredModel, transcribed from ast.go) against the
    property (Privileges!Holds) - pass M - and the completing action writes the statement as
    one case: token records to render, the abstract description the judge needs.          *)
-EXTENDS Privileges, Json, CSV, IOUtils
+EXTENDS Privileges, Dict, Json, CSV, IOUtils
 
-CONSTANTS Part,        \* "select" | "kinds"
+CONSTANTS Part,        \* "select" | "kinds" | "dict"
           MaxLeaves,   \* measurements per statement
           MaxDepth,    \* subquery nesting (0 = no subqueries)
           MaxWidth,    \* sources per FROM clause
@@ -101,6 +101,14 @@ CqFamily ==
            Kws(<<"CREATE", "CONTINUOUS", "QUERY">>) \o <<Id("cq"), Kw("ON"), Id("d1"), Kw("BEGIN"), Kw("SELECT"), Id("v")>>
            \o TgtToks(t) \o <<Kw("FROM"), Id(MName), Kw("END")>>) : t \in CqTargets}
 
+AlterOptSeq == << <<Kw("DURATION"), Dur("2d")>>, <<Kw("REPLICATION"), Int("3")>>, <<Kw("SHARD"), Kw("DURATION"), Dur("1h")>>,
+                 <<Kw("DEFAULT")>>, <<Kw("FUTURE"), Kw("LIMIT"), Dur("3h")>>, <<Kw("PAST"), Kw("LIMIT"), Dur("4h")>> >>
+CreateRpOptSeq == << <<Kw("SHARD"), Kw("DURATION"), Dur("30m")>>, <<Kw("DEFAULT")>>, <<Kw("FUTURE"), Kw("LIMIT"), Dur("3h")>>,
+                    <<Kw("PAST"), Kw("LIMIT"), Dur("4h")>> >>
+CreateDbOptSeq == << <<Kw("DURATION"), Dur("1d")>>, <<Kw("REPLICATION"), Int("2")>>, <<Kw("SHARD"), Kw("DURATION"), Dur("1h")>>,
+                    <<Kw("FUTURE"), Kw("LIMIT"), Dur("2h")>>, <<Kw("PAST"), Kw("LIMIT"), Dur("3h")>>, <<Kw("NAME"), Id(RpName)>> >>
+PickOpts(opts, S) == Flat([i \in 1..Len(opts) |-> IF i \in S THEN opts[i] ELSE <<>>])
+
 PrivWords == {<<"READ">>, <<"WRITE">>, <<"ALL">>, <<"ALL", "PRIVILEGES">>}
 AdminWords == {<<"ALL">>, <<"ALL", "PRIVILEGES">>}
 
@@ -161,6 +169,15 @@ Kinds ==
   \cup {KS(OnSt("AlterRetentionPolicy", "d1"), Kws(<<"ALTER", "RETENTION", "POLICY">>) \o <<Id(RpName), Kw("ON"), Id("d1")>> \o o)
           : o \in {<<Kw("DURATION"), Dur("2d")>>, <<Kw("REPLICATION"), Int("3"), Kw("DEFAULT")>>,
                    <<Kw("SHARD"), Kw("DURATION"), Dur("1h"), Kw("DURATION"), Dur("1d")>>, <<Kw("DEFAULT")>>}}
+  \* every non-empty subset of the six ALTER options, every subset of the optional CREATE RETENTION POLICY options,
+  \* every subset of the CREATE DATABASE ... WITH options: what a statement requires must not depend on its options
+  \cup {KS(OnSt("AlterRetentionPolicy", "d1"), Kws(<<"ALTER", "RETENTION", "POLICY">>) \o <<Id(RpName), Kw("ON"), Id("d1")>> \o PickOpts(AlterOptSeq, S))
+          : S \in (SUBSET (1..6)) \ {{}}}
+  \cup {KS(OnSt("CreateRetentionPolicy", "d1"),
+           Kws(<<"CREATE", "RETENTION", "POLICY">>) \o <<Id(RpName), Kw("ON"), Id("d1"), Kw("DURATION"), Dur("1h"), Kw("REPLICATION"), Int("1")>> \o PickOpts(CreateRpOptSeq, S))
+          : S \in SUBSET (1..4)}
+  \cup {KS(OnSt("CreateDatabase", ""), Kws(<<"CREATE", "DATABASE">>) \o <<Id("d1"), Kw("WITH")>> \o PickOpts(CreateDbOptSeq, S))
+          : S \in (SUBSET (1..6)) \ {{}}}
   \cup One("SetPasswordUser", "", Kws(<<"SET", "PASSWORD", "FOR">>) \o <<Id("u"), P("="), Str("pw")>>)
   \cup One("KillQuery", "", Kws(<<"KILL", "QUERY">>) \o <<Int("4")>>)
   \cup One("KillQuery", "", Kws(<<"KILL", "QUERY">>) \o <<Int("4"), Kw("ON"), Id("host")>>)
@@ -169,6 +186,47 @@ Kinds ==
            SelectToks(<<Leaf("db..m", "d1")>>, [f |-> "db..m", db |-> "d2"]))}
   \cup {KS(St("Explain", "", FALSE, <<Leaf("db..m", "d1")>>, NoTgt, w), WrapToks(w) \o SelectToks(<<Leaf("db..m", "d1")>>, NoTgt))
           : w \in {"explain", "analyze", "verbose", "analyze_verbose"}}
+
+\* ------------------------------------------------------------- part "dict"
+\* every word of the source dictionary (Dict.tla) as module name, user name, password, object name, host and database
+\* name of the statements that take one, and as the database of a SELECT's source and target
+DictFamily(w) ==
+  One("ShowDiagnostics", "", Kws(<<"SHOW", "DIAGNOSTICS", "FOR">>) \o <<Str(w)>>)
+  \cup One("ShowStats", "", Kws(<<"SHOW", "STATS", "FOR">>) \o <<Str(w)>>)
+  \cup One("ShowGrantsForUser", "", Kws(<<"SHOW", "GRANTS", "FOR">>) \o <<QId(w)>>)
+  \cup One("CreateUser", "", Kws(<<"CREATE", "USER">>) \o <<QId(w), Kw("WITH"), Kw("PASSWORD"), Str(w)>>)
+  \cup One("CreateUser", "", Kws(<<"CREATE", "USER">>) \o <<QId(w), Kw("WITH"), Kw("PASSWORD"), Str("pw"), Kw("WITH"), Kw("ALL"), Kw("PRIVILEGES")>>)
+  \cup One("SetPasswordUser", "", Kws(<<"SET", "PASSWORD", "FOR">>) \o <<QId(w), P("="), Str(w)>>)
+  \cup One("DropUser", "", Kws(<<"DROP", "USER">>) \o <<QId(w)>>)
+  \cup One("CreateDatabase", "", Kws(<<"CREATE", "DATABASE">>) \o <<QId(w)>>)
+  \cup One("CreateDatabase", "", Kws(<<"CREATE", "DATABASE">>) \o <<Id("d1"), Kw("WITH"), Kw("NAME"), QId(w)>>)
+  \cup One("DropDatabase", "", Kws(<<"DROP", "DATABASE">>) \o <<QId(w)>>)
+  \cup One("DropMeasurement", "", Kws(<<"DROP", "MEASUREMENT">>) \o <<QId(w)>>)
+  \cup One("KillQuery", "", Kws(<<"KILL", "QUERY">>) \o <<Int("4"), Kw("ON"), QId(w)>>)
+  \cup {KS(OnSt("Grant", w), <<Kw("GRANT"), Kw("READ"), Kw("ON"), QId(w), Kw("TO"), QId(w)>>),
+        KS(OnSt("Revoke", w), <<Kw("REVOKE"), Kw("ALL"), Kw("ON"), QId(w), Kw("FROM"), QId(w)>>),
+        KS(Plain("GrantAdmin"), <<Kw("GRANT"), Kw("ALL"), Kw("TO"), QId(w)>>),
+        KS(Plain("RevokeAdmin"), <<Kw("REVOKE"), Kw("ALL"), Kw("PRIVILEGES"), Kw("FROM"), QId(w)>>),
+        KS(OnSt("CreateRetentionPolicy", w), Kws(<<"CREATE", "RETENTION", "POLICY">>) \o <<QId(w), Kw("ON"), QId(w), Kw("DURATION"), Dur("1h"), Kw("REPLICATION"), Int("1")>>),
+        KS(OnSt("AlterRetentionPolicy", w), Kws(<<"ALTER", "RETENTION", "POLICY">>) \o <<QId(w), Kw("ON"), QId(w), Kw("DEFAULT")>>),
+        KS(OnSt("DropRetentionPolicy", w), Kws(<<"DROP", "RETENTION", "POLICY">>) \o <<QId(w), Kw("ON"), QId(w)>>),
+        KS(OnSt("CreateSubscription", w), Kws(<<"CREATE", "SUBSCRIPTION">>) \o <<QId(w), Kw("ON"), QId(w), Dot, QIdT(w), Kw("DESTINATIONS"), Kw("ALL"), Str(w)>>),
+        KS(OnSt("DropSubscription", w), Kws(<<"DROP", "SUBSCRIPTION">>) \o <<QId(w), Kw("ON"), QId(w), Dot, QIdT(w)>>),
+        KS(OnSt("DropContinuousQuery", w), Kws(<<"DROP", "CONTINUOUS", "QUERY">>) \o <<QId(w), Kw("ON"), QId(w)>>),
+        KS(OnSt("ShowRetentionPolicies", w), Kws(<<"SHOW", "RETENTION", "POLICIES">>) \o OnToks(w)),
+        KS(OnSt("ShowMeasurements", w), Kws(<<"SHOW", "MEASUREMENTS">>) \o OnToks(w)),
+        KS(St("ShowSeries", w, FALSE, <<Leaf("db..m", w)>>, NoTgt, "none"), Kws(<<"SHOW", "SERIES">>) \o OnToks(w) \o FromToks(<<Leaf("db..m", w)>>)),
+        KS(St("ShowTagKeys", w, FALSE, <<>>, NoTgt, "none"), Kws(<<"SHOW", "TAG", "KEYS">>) \o OnToks(w)),
+        KS(St("ShowFieldKeyCardinality", w, TRUE, <<Leaf("db.rp.m", w)>>, NoTgt, "none"),
+           Kws(<<"SHOW", "FIELD", "KEY", "EXACT", "CARDINALITY">>) \o OnToks(w) \o FromToks(<<Leaf("db.rp.m", w)>>)),
+        KS(St("Select", "", FALSE, <<Leaf("db..m", w), Sub(<<Leaf("db.rp.re", w)>>, NoTgt)>>, [f |-> "db..m", db |-> w], "none"),
+           SelectToks(<<Leaf("db..m", w), Sub(<<Leaf("db.rp.re", w)>>, NoTgt)>>, [f |-> "db..m", db |-> w])),
+        KS(St("Explain", "", FALSE, <<Leaf("db..m", w)>>, [f |-> "db.rp.:M", db |-> w], "analyze"),
+           WrapToks("analyze") \o SelectToks(<<Leaf("db..m", w)>>, [f |-> "db.rp.:M", db |-> w])),
+        KS(St("CreateContinuousQuery", w, FALSE, <<Leaf("db..m", w)>>, [f |-> "db..m", db |-> w], "none"),
+           Kws(<<"CREATE", "CONTINUOUS", "QUERY">>) \o <<QId(w), Kw("ON"), QId(w), Kw("BEGIN"), Kw("SELECT"), Id("mean"), PT("("), IdT("v"), PT(")")>>
+           \o TgtToks([f |-> "db..m", db |-> w]) \o <<Kw("FROM")>> \o SourcesToks(<<Leaf("db..m", w)>>)
+           \o <<Kw("GROUP"), Kw("BY"), Id("time"), PT("("), DurT("1m"), PT(")"), Kw("END")>>)}
 
 KindCase(x) == [toks |-> x.toks, s |-> x.s, mdev |-> ~Holds(x.s, RequiredModel(x.s))]
 
@@ -190,8 +248,10 @@ AddSource == /\ Part = "select"
                          /\ IF CompleteItems(its) THEN Emit(SelCase(its, tgt, wrap)) ELSE TRUE
              /\ UNCHANGED <<tgt, wrap, kst>>
 
-PickKind == /\ Part = "kinds" /\ kst = Idle
-            /\ \E x \in Kinds : kst' = x /\ Emit(KindCase(x))
+PickKind == /\ kst = Idle
+            /\ IF Part = "kinds" THEN \E x \in Kinds : kst' = x /\ Emit(KindCase(x))
+               ELSE IF Part = "dict" THEN \E w \in DictStrs : \E x \in DictFamily(w) : kst' = x /\ Emit(KindCase(x))
+               ELSE FALSE
             /\ UNCHANGED <<items, tgt, wrap>>
 
 Next == AddSource \/ PickKind
